@@ -142,21 +142,27 @@ class ShapeResult:
         self.unknown = []
 
 
+def guard_pre(k, L, w, mask, mask2):
+    """claims (and execution) are restricted to inputs where the guard quantity (regressor variance) is positive in every
+    window that holds at least two complete observations"""
+    if k.guard_on is None:
+        return None
+
+    def pre(series):
+        both = [a and b for a, b in zip(mask, mask2)]
+        out = []
+        for i in range(L):
+            gx, gy = window_valid(series["self"], both, i, w), window_valid(series["other"], both, i, w)
+            if len(gx) >= 2:
+                out.append(f_cmp("Gt", k.guard_on(gx, gy).f, VF.const(0)))
+        return out
+    return pre
+
+
 def check_shape(E, k, L, w, mp, mask, mask2=None, mode="f64", eps=None, flags_only=False, positions=None):
     """All positions of kernel k on one (L, w, mp, mask[, mask2]) shape. Returns ShapeResult."""
     res = ShapeResult()
-    pre = None
-    if k.guard_on is not None:
-        # claims (and execution) are restricted to inputs where the guard quantity (regressor variance) is positive in
-        # every window that holds at least two complete observations
-        def pre(series):
-            both = [a and b for a, b in zip(mask, mask2)]
-            out = []
-            for i in range(L):
-                gx, gy = window_valid(series["self"], both, i, w), window_valid(series["other"], both, i, w)
-                if len(gx) >= 2:
-                    out.append(f_cmp("Gt", k.guard_on(gx, gy).f, VF.const(0)))
-            return out
+    pre = guard_pre(k, L, w, mask, mask2)
     r = E.run_kernel(k.fn, w, mp, mask, mask2, mode, pre_assume=pre)
     base = list(r.assumptions)
     # proof obligations collected during execution: panics, unchecked indices
